@@ -67,10 +67,13 @@ def plan(tier):
     shards = [{'name': f'lattice{i}', 'kind': 'lattice', 'mod': 16, 'rem': i, 'per_shape': 10,
                'n': 1} for i in range(16)]
     shards += [{'name': 'kinds', 'kind': 'kinds', 'n': 600}]
+    shards += [{'name': 'transient', 'kind': 'transient', 'n': 600}]
     shards += [{'name': f'dag{i}', 'kind': 'dag', 'n': 120, 'start': i * 120} for i in range(8)]
   else:
     shards = [{'name': f'exh{i}', 'kind': 'exhaustive', 'mod': 32, 'rem': i, 'n': 1}
               for i in range(32)]
+    shards += [{'name': f'transient{i}', 'kind': 'transient', 'n': 20000, 'start': i * 20000}
+               for i in range(2)]
     shards += [{'name': f'kinds{i}', 'kind': 'kinds', 'n': 30000, 'start': i * 30000}
                for i in range(8)]
     shards += [{'name': f'dag{i}', 'kind': 'dag', 'n': 12000, 'start': i * 12000}
@@ -401,6 +404,26 @@ def run_kinds(spec, acc):
     acc.obs('kinds_cases')
 
 
+def run_transient(spec, acc):
+  """Short-lived callable instances of different classes, created, configured, built and dropped
+  in turn: the allocator hands the address of a dead instance to the next one, which has another
+  signature."""
+  classes = [kinds.SlotCallA, kinds.SlotCallB, kinds.SlotCallC]
+  for i, rng in acc.cases(spec):
+    cls = rng.choice(classes)
+    fn = cls(f't{i}')
+    m, pos_idx, ko = shape_params(fn)
+    setpos = {j for j in pos_idx
+              if rng.random() < (0.5 if m.P[j].default is not m.P[j].empty else 0.9)}
+    setko = [p.name for p in m.KO if rng.random() < 0.6]
+    va_len = rng.choice([0, 1, 2]) if m.has_va else 0
+    extra = m.has_vk and rng.random() < 0.4
+    run_binding(rng, acc, fn, {cls.__name__}, setpos, setko, va_len, extra,
+                rng.choice(['ctor', 'edits']), nested=0.0)
+    acc.obs('transient_callable_instances')
+    del fn
+
+
 def run_dag(spec, acc):
   for i, rng in acc.cases(spec):
     opts = gen.Opts(max_nodes=rng.choice([4, 8, 14]), lattice=0.3,
@@ -438,7 +461,9 @@ def run_dag(spec, acc):
 
 def run_shard(spec, seed, acc):
   kind = spec['kind']
-  if kind == 'dag':
+  if kind == 'transient':
+    run_transient(spec, acc)
+  elif kind == 'dag':
     run_dag(spec, acc)
   elif kind == 'kinds':
     run_kinds(spec, acc)
